@@ -34,6 +34,7 @@ func main() {
 	mut := flag.String("mut", "", "overlay: /repo/path.go=/path/to/replacement.go[,...]")
 	out := flag.String("json", "", "write the report as JSON")
 	quiet := flag.Bool("q", false, "no progress output")
+	fixlist := flag.String("fixlist", "", "several case splits, ';'-separated, run in one process")
 	flag.Parse()
 	if *known != "" {
 		o.Known = strings.Split(*known, ";")
@@ -48,9 +49,20 @@ func main() {
 	if !*quiet {
 		o.Log = os.Stdout
 	}
+	if *fixlist != "" {
+		reps := run.RunMany(o, strings.Split(*fixlist, ";"))
+		if *out != "" {
+			b, _ := json.MarshalIndent(reps, "", " ")
+			os.WriteFile(*out, b, 0o644)
+		}
+		for _, rep := range reps {
+			fmt.Printf("fix=%s status=%s %s viol=%d bounds=%v\n", rep.Fix, rep.Status, rep.Reason, len(rep.Violations), rep.Bounds)
+		}
+		return
+	}
 	rep := run.Run(o)
 	if *out != "" {
-		b, _ := json.MarshalIndent(rep, "", " ")
+		b, _ := json.MarshalIndent([]interface{}{rep}, "", " ")
 		os.WriteFile(*out, b, 0o644)
 	}
 	fmt.Printf("status=%s %s terms=%d states=%d transitions=%d enc=%.1fs solve=%.1fs\n", rep.Status, rep.Reason, rep.Terms, rep.States, rep.Firings, rep.EncSec, rep.SolSec)
